@@ -13,6 +13,7 @@ mod c13;
 mod c14;
 mod c16;
 mod c18;
+mod c19;
 mod sync;
 mod util;
 
@@ -41,6 +42,7 @@ fn main() {
         "c05" => c05::run(&text, &args[2], &mut out),
         "c06" | "c07" => c06::run(&text, &args[2], &mut out),
         "c08" => c08::run(&text, &mut out),
+        "c19" => c19::run(&text, &args[2], &mut out),
         "c18" => c18::run(&text, &args[2], &mut out),
         "c16" => c16::run(&text, &args[2], &mut out),
         "c13" => c13::run(&text, &args[2], &mut out),
